@@ -48,7 +48,7 @@ ACTIONS = ['cascade', 'restrict', 'set null', 'set default', 'no action']
 INDEX_TYPES = ['brin', 'btree', 'gin', 'gist', 'hash', 'spgist']
 PLAIN_TYPES = ['int', 'integer', 'varchar', 'varchar(255)', 'decimal(10,2)', 'decimal(10, 2)', 'text',
                'int[]', 'timestamp', 'bool', 'json', 'VARCHAR2(10)', 'numeric(8)', 'varchar(max)',
-               "enum('a', 'b')", 'custom.type', 'geo.point', 'uuid', 'text[]', 'INT', 'float8', 'x_y', '_t']
+               "enum('a', 'b')", 'custom((1), f(2))', 't((x))', 'custom.type', 'geo.point', 'uuid', 'text[]', 'INT', 'float8', 'x_y', '_t']
 QUOTED_TYPES = ['character varying', 'double precision', 'my type(3)', 'timestamp with time zone']
 EXPRS = ['now()', 'id * 2', "lower(name)", 'a + b', "'x' || name", 'uuid_generate_v4()', '(a)', 'x', '1',
          'coalesce(a, 0)', 'getdate()', "date_trunc('day', ts)", '"q" + 1', 'a {b}', 'é']
